@@ -1,5 +1,6 @@
 from itertools import count
 import networkx as nx
+import math
 import flowpaths.utils as utils
 # NOTE: Do NOT import flowpaths.stdigraph at module import time to avoid a circular
 # import chain: stdag -> graphutils -> stdigraph -> stdag. We instead lazily import
@@ -93,6 +94,9 @@ def read_graph(graph_raw) -> nx.DiGraph:
     except ValueError:
         utils.logger.error(f"{__name__}: Invalid vertex-count line: {graph_raw[idx].rstrip()}.")
         raise
+    if "_" in graph_raw[idx]:
+        utils.logger.error(f"{__name__}: Invalid vertex-count line: {graph_raw[idx].rstrip()}.")
+        raise ValueError(f"Invalid vertex-count line: {graph_raw[idx].rstrip()}.")
 
     idx += 1
 
@@ -115,6 +119,10 @@ def read_graph(graph_raw) -> nx.DiGraph:
         except ValueError:
             utils.logger.error(f"{__name__}: Invalid weight value in edge: {line.rstrip()}")
             raise
+        # float() also accepts 'nan', 'inf' and digit separators ('1_0'), which are not numbers of the format
+        if not math.isfinite(w) or "_" in w_str:
+            utils.logger.error(f"{__name__}: Invalid weight value in edge: {line.rstrip()}")
+            raise ValueError(f"Invalid weight value in edge: {line.rstrip()}")
         G.add_edge(u.strip(), v.strip(), flow=w)
 
     # Validate that every constraint edge exists in the graph
